@@ -1,6 +1,237 @@
-"""Kani contract harnesses on an add-only overlay of the scratch copy (filled in below)."""
-from workspace import ToolError
+"""Kani contract harnesses on an add-only overlay of the scratch copy.
+
+/verif/kani/<name>.rs is appended to /repo's src/<name>.rs in the scratch copy as a child module
+(`#[cfg(kani)] pub mod verif_kani` + `#[cfg(gtker_wow_srp_verif)] mod verif_replay`), so harnesses see
+private items without any visibility change.  No existing line is altered: checked byte for byte.
+"""
+import os, re, json, subprocess, time, glob, shutil
+from workspace import VERIF, CACHE, ToolError, env_offline
+
+KDIR = os.path.join(VERIF, "kani")
+TABLE = os.path.join(KDIR, "harnesses.json")
+
+
+def load_table():
+    return json.load(open(TABLE))
+
+
+def overlay(sc):
+    """Append harness modules. Returns list of (file, appended_bytes)."""
+    done = []
+    for f in sorted(glob.glob(os.path.join(KDIR, "*.rs"))):
+        name = os.path.basename(f)
+        rel = {"vanilla_internal.rs": "src/vanilla_header/internal.rs"}.get(name, "src/" + name)
+        dst = os.path.join(sc.repo, rel)
+        if not os.path.exists(dst):
+            raise ToolError("overlay target %s does not exist in the tree" % rel)
+        orig = open(dst, "rb").read()
+        add = open(f, "rb").read()
+        open(dst, "wb").write(orig + b"\n" + add)
+        # add-only check
+        now = open(dst, "rb").read()
+        if not now.startswith(orig):
+            raise ToolError("overlay altered existing text of " + rel)
+        done.append((rel, len(add)))
+    # the crate forbids unsafe; harnesses use none. Cargo.lock is part of the tree.
+    return done
+
+
+def _env(sc):
+    e = env_offline()
+    e["CARGO_TARGET_DIR"] = os.path.join(CACHE, "target-kani")
+    e["TMPDIR"] = sc.dir
+    return e
+
+
+_thread = re.compile(r"^Thread (\d+): ?(.*)$")
+
+
+def parse_terse(out):
+    """-> {harness: {status, time, failed_checks, covers}}"""
+    res = {}
+    cur = {}
+    owner = {}
+    lines = out.split("\n")
+    t = None
+    for ln in lines:
+        m = _thread.match(ln)
+        if m:
+            t = int(m.group(1))
+            rest = m.group(2)
+            m2 = re.match(r"Checking harness (\S+?)\.\.\.", rest)
+            if m2:
+                owner[t] = m2.group(1)
+                res.setdefault(m2.group(1), {"status": "UNKNOWN", "text": []})
+            continue
+        m2 = re.match(r"^Checking harness (\S+?)\.\.\.", ln)
+        if m2:
+            t = -1
+            owner[t] = m2.group(1)
+            res.setdefault(m2.group(1), {"status": "UNKNOWN", "text": []})
+            continue
+        if t is not None and t in owner:
+            r = res[owner[t]]
+            r["text"].append(ln)
+            m3 = re.match(r"^VERIFICATION:- (\w+)", ln)
+            if m3:
+                r["status"] = m3.group(1)
+            m4 = re.match(r"^Verification Time: ([0-9.]+)s", ln)
+            if m4:
+                r["time"] = float(m4.group(1))
+            m5 = re.match(r"^ \*\* (\d+) of (\d+) cover properties satisfied", ln)
+            if m5:
+                r["covers"] = (int(m5.group(1)), int(m5.group(2)))
+            m6 = re.match(r"^ \*\* (\d+) of (\d+) failed", ln)
+            if m6:
+                r["checks"] = (int(m6.group(1)), int(m6.group(2)))
+    for r in res.values():
+        r["text"] = "\n".join(x for x in r["text"] if x.strip())[-3000:]
+    return res
+
+
+def run_group(sc, names, stubbing, jobs, timeout, log):
+    cmd = ["cargo", "kani"]
+    for n in names:
+        cmd += ["--harness", n]
+    cmd += ["--output-format=terse"]
+    if len(names) > 1:
+        cmd += ["-j", str(min(jobs, len(names)))]
+    if stubbing:
+        cmd += ["-Z", "stubbing"]
+    t0 = time.time()
+    import signal
+    proc = subprocess.Popen(cmd, cwd=sc.repo, env=_env(sc), stdout=subprocess.PIPE, stderr=subprocess.STDOUT, text=True, start_new_session=True)
+    try:
+        out, _ = proc.communicate(timeout=timeout)
+        timed_out = False
+    except subprocess.TimeoutExpired:
+        timed_out = True
+        try:
+            os.killpg(proc.pid, signal.SIGKILL)
+        except Exception:
+            pass
+        out, _ = proc.communicate()
+    log.setdefault("kani_cmds", []).append(" ".join(cmd))
+    log["kani_s"] = round(log.get("kani_s", 0) + time.time() - t0, 1)
+    if "error: could not compile" in out or "error[E" in out:
+        raise ToolError("Kani could not compile the overlay (item renamed or removed?):\n" + "\n".join(l for l in out.split("\n") if "error" in l)[:2000])
+    return parse_terse(out), timed_out, out
+
+
+def playback(sc, name, stubbing, timeout=900):
+    cmd = ["cargo", "kani", "--harness", name, "--output-format=terse", "-Z", "concrete-playback", "--concrete-playback=print"]
+    if stubbing:
+        cmd += ["-Z", "stubbing"]
+    try:
+        p = subprocess.run(cmd, cwd=sc.repo, env=_env(sc), stdout=subprocess.PIPE, stderr=subprocess.STDOUT, text=True, timeout=timeout)
+    except subprocess.TimeoutExpired:
+        return None
+    tests = []      # (kind, vals)
+    kind = None
+    vals = None
+    for ln in p.stdout.split("\n"):
+        m0 = re.match(r"^/// Check for `([^`]*)`", ln)
+        if m0:
+            kind = m0.group(1)
+        if "let concrete_vals" in ln:
+            vals = []
+            continue
+        if vals is not None:
+            m = re.match(r"^\s*vec!\[([0-9, ]*)\],?\s*$", ln)
+            if m:
+                vals.append([int(x) for x in m.group(1).split(",") if x.strip()])
+            elif "];" in ln:
+                tests.append((kind, vals)); vals = None; kind = None
+    vals = None
+    for k, v in tests:
+        if k != "cover":
+            vals = v; break
+    return vals or None
+
+
+def native_replay(sc, test, input_hex, log):
+    """Run the native replay test (compiled from the same overlay under cfg(gtker_wow_srp_verif))."""
+    env = env_offline()
+    env["CARGO_TARGET_DIR"] = os.path.join(CACHE, "target-replay")
+    env["RUSTFLAGS"] = "--cfg gtker_wow_srp_verif"
+    env["VERIF_REPLAY_INPUT"] = input_hex
+    cmd = ["cargo", "test", "--offline", "--lib", "--features", "matrix-card", test, "--", "--nocapture", "--test-threads", "1"]
+    p = subprocess.run(cmd, cwd=sc.repo, env=env, stdout=subprocess.PIPE, stderr=subprocess.STDOUT, text=True, timeout=900)
+    out = p.stdout
+    lines = [l[l.index("REPLAY"):] for l in out.split("\n") if "REPLAY" in l]
+    return {"cmd": "VERIF_REPLAY_INPUT=%s RUSTFLAGS='--cfg gtker_wow_srp_verif' %s" % (input_hex, " ".join(cmd)),
+            "exit": p.returncode, "lines": lines, "reproduced": any("REPLAY-FAIL" in l for l in lines) or ("panicked" in out and p.returncode != 0),
+            "tail": out[-1500:]}
 
 
 def run_harnesses(res, cfg, sc, tier):
-    raise ToolError("kani runner not built yet")
+    table = load_table()
+    want = []
+    for h in table:
+        if res.pid in h["props"] and (tier == "thorough" or h.get("tier", "quick") == "quick"):
+            want.append(h)
+    if not want:
+        return
+    ov = overlay(sc)
+    res.log["kani_overlay"] = ov
+    # group by stubbing flag; heavy harnesses run alone in parallel groups via -j
+    jobs = int(os.environ.get("VERIF_JOBS", "12"))
+    results = {}
+    for stub in (False, True):
+        grp = [h for h in want if bool(h.get("stubbing")) == stub]
+        if not grp:
+            continue
+        tmo = max(h.get("timeout", 600) for h in grp) + 120
+        r, timed_out, raw = run_group(sc, [h["name"] for h in grp], stub, jobs, tmo, res.log)
+        for h in grp:
+            full = [k for k in r if k.endswith("::" + h["name"])]
+            results[h["name"]] = r[full[0]] if full else {"status": "TIMEOUT" if timed_out else "MISSING", "text": raw[-1500:]}
+    res.log["kani_cmd"] = " ; ".join(res.log.get("kani_cmds", []))
+    for h in want:
+        r = results[h["name"]]
+        oid = "kani:" + h["name"]
+        o = {"id": oid, "engine": "kani", "text": h.get("contract", ""), "where": "kani/%s" % h.get("file", ""), "kani_time_s": r.get("time")}
+        st = r["status"]
+        cov = r.get("covers")
+        if st == "SUCCESSFUL":
+            if cov and cov[0] < cov[1]:
+                o["status"] = "undecided"
+                res.undecided.append("vacuity guard: harness %s has unsatisfied cover properties (%d of %d)" % (h["name"], cov[0], cov[1]))
+            elif h.get("bounded"):
+                o["status"] = "bounded"; o["bound"] = h["bounded"]
+            else:
+                o["status"] = "discharged"
+        elif st == "FAILED":
+            o["status"] = "failed"
+            o["verifier_output"] = r["text"]
+            vals = playback(sc, h["name"], bool(h.get("stubbing")))
+            rp = {"harness": h["name"], "concrete_values": vals, "found_input": False}
+            if vals is not None:
+                flat = [b for v in vals for b in v]
+                rp["input_hex"] = "".join("%02x" % b for b in flat)
+                if h.get("replay_test"):
+                    nr = native_replay(sc, h["replay_test"], rp["input_hex"], res.log)
+                    rp.update(nr)
+                    rp["found_input"] = bool(nr["reproduced"])
+                else:
+                    rp["found_input"] = True
+                    rp["note"] = "counterexample produced by CBMC on the real function; no native replay driver for this harness"
+            o["replay"] = rp
+        else:
+            o["status"] = "undecided"
+            res.undecided.append("Kani harness %s: %s" % (h["name"], st))
+            o["verifier_output"] = r.get("text", "")
+        res.obligations.append(o)
+        if h.get("assumes"):
+            res.trusted += h["assumes"]
+    res.functions.setdefault("kani", [])
+    res.functions["kani"] += sorted(set(h.get("function", "") for h in want))
+
+
+def warm(sc, log):
+    """setup: build the Kani dependency cache by compiling the overlay once."""
+    overlay(sc)
+    cmd = ["cargo", "kani", "--harness", "c04_from_le_bytes", "--output-format=terse"]
+    t0 = time.time()
+    p = subprocess.run(cmd, cwd=sc.repo, env=_env(sc), stdout=subprocess.PIPE, stderr=subprocess.STDOUT, text=True, timeout=1800)
+    print("kani warm-up %.1fs rc=%d" % (time.time() - t0, p.returncode))
